@@ -73,6 +73,9 @@ class Gen:
         self.pf = profile
         self.k = 0
         self.ids = 0
+        # one program in 25 may use the optional catch binding (such programs are skipped as a whole
+        # while the engine rejects the form)
+        self.nobind_budget = 1 if rng.random() < 0.04 else 0
 
     def nk(self):
         self.k += 1
@@ -209,7 +212,8 @@ class Gen:
                     node["c"] = self.block(depth + 1, c3, rng.randrange(1, 3))
             if "f" in shape:
                 node["f"] = self.block(depth + 1, dict(ctx, in_finally=True, in_try=ctx.get("in_try")), rng.randrange(1, 3))
-            if node["c"] is not None and rng.random() < 0.05:
+            if node["c"] is not None and self.nobind_budget > 0 and rng.random() < 0.3:
+                self.nobind_budget -= 1
                 node["nobind"] = True
             # blocks that are really empty in the source text (no probe call either)
             if rng.random() < 0.12:
@@ -944,7 +948,7 @@ def schedules_for(prog, D, rng, tier):
 
 
 def n_cases(tier):
-    return 1200 if tier == "quick" else 12000
+    return 1600 if tier == "quick" else 12000
 
 
 def gen_case(seed, i, tier="quick"):
